@@ -167,12 +167,12 @@ let u_crlfhyp c =
     end
   | _ -> Skip
 
-(* how often the hypothesis of FormatIdemProofs.format_idempotent (idem_hyp) holds on the composed run, and which of its checks
+(* how often the hypothesis of FormatIdemProofs.format_idempotent_min (FormatIdemKindsProofs.format_idempotent_kinds: idem_hypb_kinds) holds on the composed run, and which of its checks
    fails first where it does not; in both cases the composed model is run again on its own output:
      hypothesis true  -> the second output must be the first (a theorem; re-checked here: DIFF otherwise)
      hypothesis false -> V idem_hyp_false_<first failing check>_<idempotent|NOT_idempotent> *)
-let idem_check_names = [| "rescan_fuel"; "rescan_pieces"; "rescan_kinds"; "asm"; "ignored_first_run"; "ignored_second_run";
-                          "ml_string"; "undecided_token"; "spaces_read" |]
+let idem_check_names = [| "rescan_fuel"; "rescan_pieces"; "rescan_kinds_mod_flags"; "asm"; "ignored_first_run";
+                          "ml_string"; "undecided_token"; "inline_comment_after_line_comment"; "spaces_read" |]
 let u_idemhyp c =
   match cfg_of c with
   | None -> Skip
@@ -183,7 +183,7 @@ let u_idemhyp c =
         | Inr _ -> Skip
         | Inl out ->
           let again = (match format_chain U_rewriters.alnum cfg out with Inl o2 -> o2 = out | Inr _ -> false) in
-          let checks = idem_hyp_checks U_rewriters.alnum cfg segs in
+          let checks = idem_hyp_checks_kinds U_rewriters.alnum cfg segs in
           let rec first i = function [] -> -1 | b :: r -> if b then first (i + 1) r else i in
           let k = first 0 checks in
           if k < 0 then (if again then Ok_ else Diff "idem_hyp holds but the second run changes the output")
